@@ -7,7 +7,7 @@
    returns the same element for every way of splitting the index range.
    Not expressible: machine-level data races, the hand-written unsafe impl Sync, rayon's scheduler. *)
 From Coq Require Import ZArith NArith List Bool Reals Floats String. Import ListNotations.
-From PV Require Import Num NumR model.Tables model.Spec model.Geom model.Optimiser model.OptSpec model.Pipeline model.Svg model.Json gen.GenTables gen.GenSchema proofs.OptStruct proofs.OptLoop proofs.LatticeFacts proofs.TablesFacts proofs.PipelineFacts proofs.OutputFacts proofs.FloatFacts proofs.OrderFacts.
+From PV Require Import Num NumR model.Tables model.Spec model.Geom model.Optimiser model.OptSpec model.Pipeline model.Svg model.Json gen.GenTables gen.GenSchema proofs.OptStruct proofs.OptLoop proofs.LatticeFacts proofs.TablesFacts proofs.PipelineFacts proofs.OutputFacts proofs.FloatFacts proofs.OrderFacts proofs.Interleave.
 
 Theorem C09_run_writes_only_own_cells :
   forall (NN : Num) (fexp : carrier NN -> carrier NN) (score : N -> list (carrier NN) -> option
@@ -62,4 +62,30 @@ Theorem C09_cmp_defined :
   forall (X : Type) (a b : scored X), score_cmp NumF (Some (sc_score a)) (Some (sc_score b)) <> None.
 Proof. exact (@cmp_defined). Qed.
 Print Assumptions C09_cmp_defined.
+
+Theorem C09_interleaving_does_not_matter :
+  forall (NN : Num) (fexp : carrier NN -> carrier NN) (scoreA scoreB : N -> list (carrier NN) ->
+    option (carrier NN)) (ownA ownB : list nat) (cA cB : cfg NN), (forall (k : N) (ps qs : list
+    (carrier NN)), agree NN ownA ps qs -> scoreA k ps = scoreA k qs) -> (forall (k : N) (ps qs :
+    list (carrier NN)), agree NN ownB ps qs -> scoreB k ps = scoreB k qs) -> (forall k : nat,
+    @In nat k ownA -> @In nat k ownB -> False) -> forall (sched : list (bool * draw NN)) (heap :
+    list (carrier NN)) (a b : ost NN), owns NN ownA a -> owns NN ownB b -> let '(heap', a', b')
+    := sys_run NN fexp scoreA scoreB cA cB (heap, a, b) sched in let ra := run NN fexp scoreA cA
+    (with_params NN a heap) (draws_of NN true sched) in let rb := run NN fexp scoreB cB
+    (with_params NN b heap) (draws_of NN false sched) in with_params NN a' heap' = with_params
+    NN ra heap' /\ agree NN ownA (params NN ra) heap' /\ with_params NN b' heap' = with_params
+    NN rb heap' /\ agree NN ownB (params NN rb) heap'.
+Proof. exact interleaving_does_not_matter. Qed.
+Print Assumptions C09_interleaving_does_not_matter.
+
+Theorem C09_run_local :
+  forall (NN : Num) (fexp : carrier NN -> carrier NN) (score : N -> list (carrier NN) -> option
+    (carrier NN)) (own : list nat), (forall (k : N) (ps qs : list (carrier NN)), agree NN own ps
+    qs -> score k ps = score k qs) -> forall (c : cfg NN) (draws : list (draw NN)) (st : ost NN)
+    (ps : list (carrier NN)), owns NN own st -> agree NN own (params NN st) ps -> run NN fexp
+    score c (with_params NN st ps) draws = with_params NN (run NN fexp score c st draws) (params
+    NN (run NN fexp score c (with_params NN st ps) draws)) /\ agree NN own (params NN (run NN
+    fexp score c st draws)) (params NN (run NN fexp score c (with_params NN st ps) draws)).
+Proof. exact run_local. Qed.
+Print Assumptions C09_run_local.
 
